@@ -246,3 +246,66 @@ func orEmpty(s string) string {
 	}
 	return s
 }
+
+// pageLoopsComplete: the loops that move pages between files handle every
+// page of their range - no iteration returns to the loop condition without the
+// page having been encoded / written / summed, except through the one confirmed
+// skip (the lock page). Shared by the properties that depend on complete images.
+func (c *Ctx) pageLoopsComplete(prefix string, which ...string) {
+	p := c.P
+	enc := p.PlainCalls("ltx.(*Encoder).EncodePage")
+	why := "a page silently left out of an LTX file, snapshot, export or apply leaves the image a mixture of two positions while position and checksum move on"
+	want := map[string]bool{}
+	for _, w := range which {
+		want[w] = true
+	}
+	lockSkip := G(`^\(ltx\.LockPgno\(.*\) == .*\)$|^\(.* == phi\(0\|ltx\.LockPgno\(.*\)\)\)$|^\(.* == ltx\.LockPgno\(.*\)\)$`, true)
+	if want["CommitWAL"] {
+		c.EveryIterationG(prefix+"/CommitWAL/every-listed-page-encoded", "litefs.(*DB).CommitWAL",
+			G(`^\(\(phi\(-1\) \+ 1\) < builtin\.len\(\{builtin\.append\(.*buildTxFrameOffsets.*\)\)$`, true), enc, 1,
+			"every page number of the transaction's page list is encoded (the lock page excepted)", why, lockSkip)
+	}
+	if want["CommitJournal"] {
+		c.EveryIterationG(prefix+"/CommitJournal/every-listed-page-encoded", "litefs.(*DB).CommitJournal",
+			G(`^\(\(phi\(-1\) \+ 1\) < builtin\.len\(\{builtin\.append\(.*dirtyPageSet.*\)\)$`, true), enc, 1,
+			"every page number of the transaction's page list is encoded (the lock page excepted)", why, lockSkip)
+	}
+	if want["importToLTX"] {
+		c.EveryIterationG(prefix+"/importToLTX/every-page-encoded", "litefs.(*DB).importToLTX",
+			G(`^\(litefs\.readSQLiteDatabaseHeader\(p2\)#0\.PageN < phi\(\(↺ \+ 1\)\|1\)\)$`, false), enc, 1,
+			"every page 1..PageN of the image is encoded (the lock page excepted)", why, lockSkip)
+	}
+	if want["WriteSnapshotTo"] {
+		c.EveryIterationG(prefix+"/WriteSnapshotTo/every-page-encoded", "litefs.(*DB).WriteSnapshotTo",
+			G(`^\(litefs\.\(\*DB\)\.PageN\(p0\) < phi\(\(↺ \+ 1\)\|1\)\)$`, false), enc, 1,
+			"every page 1..PageN is encoded into the snapshot (the lock page excepted)", why, lockSkip)
+	}
+	if want["Export"] {
+		ex := "litefs.(*DB).Export"
+		hasNext := G(`^\(litefs\.\(\*DB\)\.PageN\(p0\) < phi\(\(↺ \+ 1\)\|1\)\)$`, false)
+		c.EveryIterationG(prefix+"/Export/every-page-verified", ex, hasNext, p.PlainCalls("ltx.ChecksumPage"), 1,
+			"the verification pass sums every page 1..PageN (the lock page excepted)", why, lockSkip)
+		c.EveryIterationG(prefix+"/Export/every-page-written", ex, hasNext, func(in ssa.Instruction) bool {
+			cc := callCommon(in)
+			return cc != nil && cc.IsInvoke() && cc.Method.Name() == "Write"
+		}, 1, "the writing pass writes every page 1..PageN, the lock page included (the image is a file)", why)
+	}
+	if want["ApplyLTXNoLock"] {
+		ap := "litefs.(*DB).ApplyLTXNoLock"
+		dec := `ltx\.\(\*Decoder\)\.DecodePage\(.*\)`
+		c.AfterEdge(prefix+"/ApplyLTXNoLock/every-decoded-page-written", ap, G(`^\(io\.EOF == `+dec+`\)$`, false), p.PlainCalls("litefs.(*DB).writeDatabasePage"), func(in ssa.Instruction) bool {
+			_, isRet := in.(*ssa.Return)
+			return p.PlainCalls("ltx.(*Decoder).DecodePage")(in) || (isRet && p.ClassifyReturn(in.(*ssa.Return)) == retSuccess)
+		}, 1, "every page decoded from the file is written into the database before the next page is decoded or the apply succeeds", why,
+			G(`^\(`+dec+` == nil\)$|^\(nil == `+dec+`\)$`, false))
+	}
+	if want["rollbackJournalSegment"] {
+		rs := "litefs.(*DB).rollbackJournalSegment"
+		fr := `litefs\.\(\*JournalReader\)\.ReadFrame\(p2\)`
+		c.AfterEdge(prefix+"/rollback/every-record-in-range-restored", rs, G(`^\(`+fr+`#2 == nil\)$|^\(nil == `+fr+`#2\)$`, true), p.PlainCalls("litefs.(*DB).writeDatabasePage"), func(in ssa.Instruction) bool {
+			_, isRet := in.(*ssa.Return)
+			return isRet || p.PlainCalls("litefs.(*JournalReader).ReadFrame")(in)
+		}, 1, "every journal record read is written back, except records for pages beyond the original size", why,
+			G(`^\(p2\.commit < `+fr+`#0\)$`, true))
+	}
+}
